@@ -20,3 +20,17 @@ SHARDS = {
     "urwid/display/escape.py:KeyqueueTrie.get_recurse": (4, 4),
     "urwid/display/escape.py:process_keyqueue": (4, 4),
 }
+
+# Proofs that take minutes: verified by `--tier thorough` only (quick: bounded stand-in decides these functions).
+THOROUGH_ONLY = (
+    "urwid/widget/columns.py:Columns.column_widths",
+)
+SHARDS.update({
+    "urwid/widget/columns.py:Columns.column_widths": (16, 8),
+    "urwid/vterm.py:TermCanvas.resize": (10, 6),
+    "urwid/vterm.py:TermCanvas.remove_lines": (4, 4),
+    "urwid/vterm.py:TermCanvas.insert_lines": (4, 4),
+    "urwid/vterm.py:TermCanvas.insert_chars": (4, 4),
+    "urwid/vterm.py:TermCanvas.remove_chars": (4, 4),
+    "urwid/vterm.py:TermCanvas.erase": (6, 4),
+})
